@@ -61,11 +61,12 @@ fn any_sep() -> ListSeparator {
 
 fn any_brackets() -> Brackets { if kani::any() { Brackets::Bracketed } else { Brackets::None } }
 
-/// K: 0 null, 1 boolean, 2 number, 3 string, 4 one-element list of a number, 5 empty list, 6 one-element list of a string
+/// K: 0 null, 1 true, 7 false, 2 number, 3 string, 4 one-element list of a number, 5 empty list, 6 one-element list of a string
 fn mk<const K: u8>() -> Value {
     match K {
         0 => Value::Null,
-        1 => if kani::any() { Value::True } else { Value::False },
+        1 => Value::True,
+        7 => Value::False,
         2 => any_dim(),
         3 => any_str(),
         4 => Value::List(vec![any_dim()], any_sep(), any_brackets()),
@@ -84,7 +85,7 @@ pub fn check<const KA: u8, const KB: u8>() {
     let e2 = value_eq(&w, &v);
     assert!(e == e2, "C09a: == is not symmetric");
     assert!(value_not_equals(&w, &v) == !e2, "C09a: != is not the negation of == (swapped)");
-    if KA != KB && !((KA == 4 || KA == 6) && (KB == 4 || KB == 6)) {
+    if KA != KB && !((KA == 4 || KA == 6) && (KB == 4 || KB == 6)) && !(KA == 5 && KB == 5) {
         assert!(!e, "C09a: values of different types compare equal");
     }
     kani::cover!(e, "equal");
@@ -126,7 +127,8 @@ inst!(c09a_num_num, 2, 2);
 inst!(c09a_str_str, 3, 3);
 inst!(c09a_num_str, 2, 3);
 inst!(c09a_null_num, 0, 2);
-inst!(c09a_bool_bool, 1, 1);
+inst!(c09a_bool_bool, 1, 7);
+inst!(c09a_true_true, 1, 1);
 inst!(c09a_list_list, 4, 4);
 inst!(c09a_list_num, 4, 2);
 inst!(c09a_empty_empty, 5, 5);
